@@ -61,6 +61,9 @@ CHECKS = {
     "C17": ("model_checking", "stateless exhaustive exploration of all interleavings of sequential client programs over the shared process-global tables, one fresh process per schedule; differential oracle against the client rendered alone",
             "Five clients chosen to write different values into the same global tables (KIDA/default lists, UCLCHEM project through RenderCommand with replacement + binding energies, Leeds with custom lists and prefix G, KROME with directives, API-built ice network) each run a short program of atomic API calls (build; render / render twice / edit, where_species, render / CLI render); every interleaving of every pair (thorough: and triple) within the length bound is executed on the real code in a fresh process and every render must hash to the client's reference hash, which itself must agree across interpreter hash seeds and repeated renders.",
             "Scheduling points are API-call boundaries (single-threaded library). No state merging, so no canonicalisation argument is needed.", "DESIGN.md §2 C17"),
+    "C18": ("exploration", "bounded-exhaustive enumeration of networks of every format; write/read/write cycles compared field by field and byte by byte; export + re-render compared by compiled evaluation",
+            "Every line of C07's space (5 typed formats, 200 reactions per file) is read, written in the native format, read back and written again: reactions in order with multisets, window, type, index, source tag and printed-precision coefficients must be preserved and the second cycle must be byte-identical. For every gas-phase (format,type), a KROME rate and every (entry path, dust model, process), a one-reaction project is exported and re-rendered from its own files; both EvalRates are compiled by g++ and must evaluate equal, or the re-render must raise.",
+            "Refusals and non-compiling re-renders are not violations (not silent). Physical values are set identically on both sides (zeta = zeta_cr, zeta_xr = 0).", "DESIGN.md §2 C18"),
 }
 
 NOT_YET = {
